@@ -1087,7 +1087,7 @@ fn schedule_part(run: &Run) -> Value {
             }
             let cx = &cxs[ci];
             let ll = cx.len();
-            let cfg = Config { workers: 2, choose_items: false, max_decisions: 100_000, min_items: 2 };
+            let cfg = Config { workers: 2, choose_items: false, max_decisions: 100_000, min_items: 2, count_task_switches: false };
             let body = || -> Result<Obs<T::Ref>, String> {
                 let c = cx.build(false);
                 let r = ChainReducer::reduce(&c, true);
